@@ -31,7 +31,7 @@ VARIABLES l, cx, viol, cov
 vars == <<l, cx, viol, cov>>
 
 SetFields == {"ready", "running", "cleanup", "failed", "upf", "indag", "started", "succ",
-              "faildel", "changed", "cleaned", "offered", "coffered", "skipev", "rab", "cgen"}
+              "faildel", "changed", "cleaned", "offered", "coffered", "skipev", "rab", "cgen", "estarted"}
 Norm(r) == [f \in DOMAIN r |-> IF f \in SetFields THEN ToSet(r[f]) ELSE r[f]]
 
 NoCtx == [none |-> TRUE]
@@ -41,7 +41,7 @@ Clauses == <<
   <<"C01a", "C01", "end">>,
   <<"C02a", "C02", "st">>, <<"C02b", "C02", "st">>, <<"C02c", "C02", "st">>,
   <<"C02d", "C02", "st">>, <<"C02e", "C02", "st">>,
-  <<"C03a", "C03", "end">>,
+  <<"C03a", "C03", "end">>, <<"C03b", "C03", "end">>,
   <<"C04a", "C04", "end">>, <<"C04b", "C04", "end">>, <<"C04c", "C04", "end">>,
   <<"C05a", "C05", "st">>, <<"C05b", "C05", "st">>, <<"C05c", "C05", "tr">>,
   <<"C06a", "C06", "tr">>, <<"C06b", "C06", "tr">>, <<"C06c", "C06", "end">>,
@@ -68,7 +68,7 @@ Clauses == <<
   <<"C19a", "C19", "big">>, <<"C19b", "C19", "big">>, <<"C19c", "C19", "big">>,
   <<"C19d", "C19", "big">>,
   <<"C20a", "C20", "tr">>, <<"C20b", "C20", "tr">>,
-  <<"S01", "S", "tr">>, <<"S02", "S", "tr">>, <<"S03", "S", "end">>, <<"S04", "S", "tr">>,
+  <<"S01", "S", "tr">>, <<"S03", "S", "end">>,
   <<"H01", "H", "st">>, <<"H02", "H", "tr">> >>
 
 Selected(kind) == {c[1] : c \in {x \in ToSet(Clauses) : x[2] \in SelProps /\ x[3] = kind}}
@@ -109,18 +109,16 @@ StepsOf(steps, what) ==
   LET sel == SelectSeq(steps, LAMBDA x : x[1] = what /\ x[4] # "Pruned")
   IN IF what = "sig" THEN [i \in 1..Len(sel) |-> <<"sig", sel[i][2], sel[i][3]>>]
      ELSE [i \in 1..Len(sel) |-> <<"st", sel[i][2], sel[i][3], sel[i][4]>>]
+(* one evaluation of the model per recorded transition: result class, complete engine state, and
+   (when the hook's step log was recorded) the sequences of handled signals and state changes *)
 S01(c, r, pre, post, isStart) ==
   V(~pre.dead \/ isStart,
     LET m == ModelCall(c, pre, post, r.call, isStart)
-    IN m.res = ResClass(r.res) /\ (m.res # "dead" => Diff(m.e, post) = {}))
-S02(c, r, pre, post, isStart) ==
-  V((~pre.dead \/ isStart) /\ c.steps /\ ResClass(r.res) # "dead",
-    LET m == ModelCall(c, pre, post, r.call, isStart)
-    IN SelectSeq(m.e.log, LAMBDA x : x[1] = "sig") = StepsOf(r.steps, "sig"))
-S04(c, r, pre, post, isStart) ==
-  V((~pre.dead \/ isStart) /\ c.steps /\ ResClass(r.res) # "dead",
-    LET m == ModelCall(c, pre, post, r.call, isStart)
-    IN SelectSeq(m.e.log, LAMBDA x : x[1] = "st") = StepsOf(r.steps, "st"))
+    IN /\ m.res = ResClass(r.res)
+       /\ (m.res # "dead" => Diff(m.e, post) = {})
+       /\ (m.res # "dead" /\ c.steps =>
+             /\ SelectSeq(m.e.log, LAMBDA x : x[1] = "sig") = StepsOf(r.steps, "sig")
+             /\ SelectSeq(m.e.log, LAMBDA x : x[1] = "st") = StepsOf(r.steps, "st")))
 S03(c, s, nh, h1) ==
   V(~s.dead /\ s.fin,
     LET m == NewHistory(c, FromObs(c, s, c.ord))
@@ -155,8 +153,6 @@ EvalTr(n, r, pre, post, isStart) ==
     [] n = "C20b" -> C20b(r.mis, r.to = r.from)
     [] n = "H02" -> IF isStart THEN "na" ELSE H02(cx, pre, post, call, res, r.mis)
     [] n = "S01" -> S01(cx.c, r, pre, post, isStart)
-    [] n = "S02" -> S02(cx.c, r, pre, post, isStart)
-    [] n = "S04" -> S04(cx.c, r, pre, post, isStart)
 
 (* ---- end lines ---- *)
 EvalEnd(n, e, s, twinE, twinS, prevE, prevS) ==
@@ -173,6 +169,7 @@ EvalEnd(n, e, s, twinE, twinS, prevE, prevS) ==
   IN
   CASE n = "C01a" -> C01a(cx, s)
     [] n = "C03a" -> C03a(cx, s)
+    [] n = "C03b" -> C03b(cx, s)
     [] n = "C04a" -> C04a(cx, s)
     [] n = "C04b" -> C04b(cx, s)
     [] n = "C04c" -> IF hasTwin THEN C04c(cx, s, TRUE, twinS) ELSE "na"
